@@ -527,3 +527,34 @@ def inlined_helper(prog, cg, fn):
         return False
     return any(e.kind == 'direct' and e.src.qname != fn.qname for e in cg.callers(fn.qname))
 
+
+def state_kept_by(prog, f):
+    """ways in which a function keeps something between calls: memoising / unknown decorators, rebinding of globals,
+    stores into module-level or default-argument containers -> list of descriptions (empty = stateless)"""
+    m = f.module
+    probs = []
+    for d in f.node.decorator_list:
+        txt = norm(d)
+        if txt.split('(')[0].rsplit('.', 1)[-1] not in ('staticmethod', 'classmethod', 'property', 'abstractmethod', 'wraps'):
+            probs.append(f'decorator @{txt[:40]}')
+    globs = {n for g in f.own_nodes() if isinstance(g, ast.Global) for n in g.names}
+    defaults = {a.arg for a, dv in zip(reversed(f.node.args.args), reversed(f.node.args.defaults)) if isinstance(dv, (ast.Dict, ast.List, ast.Set, ast.Call))}
+    mutable_globals = {n for n, vals in m.globals.items() if any(isinstance(v, (ast.Dict, ast.List, ast.Set, ast.Call, ast.DictComp, ast.ListComp)) for v in vals)}
+    local_names = {t.id for s_ in f.own_nodes() if isinstance(s_, ast.Assign) for t in s_.targets if isinstance(t, ast.Name)} | set(f.params())
+    for n in f.own_nodes():
+        tg = n.targets if isinstance(n, ast.Assign) else ([n.target] if isinstance(n, (ast.AugAssign, ast.AnnAssign)) else [])
+        for t in tg:
+            base = t
+            while isinstance(base, ast.Subscript):
+                base = base.value
+            if isinstance(base, ast.Name):
+                if base.id in globs:
+                    probs.append(f'{norm(n)[:50]} rebinds / writes the global {base.id}')
+                elif isinstance(t, ast.Subscript) and ((base.id in mutable_globals and base.id not in local_names) or base.id in defaults):
+                    probs.append(f'{norm(n)[:50]} stores into the module-level / default-argument container {base.id}')
+        if isinstance(n, ast.Call) and isinstance(n.func, ast.Attribute) and isinstance(n.func.value, ast.Name) and n.func.attr in ('append', 'extend', 'add', 'update', 'setdefault', 'insert', '__setitem__'):
+            b = n.func.value.id
+            if (b in mutable_globals and b not in local_names) or b in defaults or b in globs:
+                probs.append(f'{norm(n)[:50]} stores into the module-level / default-argument container {b}')
+    return sorted(set(probs))
+
